@@ -508,6 +508,8 @@ class Ctx:
         self.objmap: Dict[int, Any] = {}
         self.keep: List[Any] = []
         self.rng = rng or random.Random(0)
+        self._nocoerce: Dict[Any, Any] = {}
+        self._thunks: Dict[int, Any] = {}
         for i, t in enumerate(lazy):
             self.lazy_objs[i] = self.validator(t)
 
@@ -599,10 +601,13 @@ class Ctx:
             return coerce_datetime
         if c == "CoTupleOrList":
             return tuple_or_list_to_tuple
-        if c == "CoDataclassNoCoerce":
-            return dataclass_no_coerce(self.ct.classes[t[1].k])
-        if c == "CoNamedTupleNoCoerce":
-            return namedtuple_no_coerce(self.ct.classes[t[1].k])
+        if c in ("CoDataclassNoCoerce", "CoNamedTupleNoCoerce"):
+            # one coercer object per class and context: "the same argument" for every node using it
+            key = (c, t[1].k)
+            if key not in self._nocoerce:
+                f = dataclass_no_coerce if c == "CoDataclassNoCoerce" else namedtuple_no_coerce
+                self._nocoerce[key] = f(self.ct.classes[t[1].k])
+            return self._nocoerce[key]
         return U.user_coercer(t[1].k)
 
     # -- validators
@@ -712,7 +717,9 @@ class Ctx:
         if c == "LazyV":
             idx = t[1].k
             objs = self.lazy_objs
-            return Lazy(lambda: objs[idx], recurrent=t[2])
+            if idx not in self._thunks:
+                self._thunks[idx] = (lambda: objs[idx])     # one thunk per definition: "the same argument"
+            return Lazy(self._thunks[idx], recurrent=t[2])
         if c == "KeyNotRequired":
             return KeyNotRequired(self.validator(t[1]))
         if c == "CacheV":
